@@ -2,3 +2,7 @@
 pub mod engine;
 pub mod untyped;
 pub mod opts;
+pub mod gdoc;
+pub mod shape;
+pub mod iofault;
+pub mod c06_model;
